@@ -13,7 +13,8 @@ configuration) and a history-dependent part (lines `hist ...` and `state: ...`: 
 earlier election and *every* class attribute, stale ones included).  C20's oracle compares the
 first part across histories; model-vs-implementation compares both parts."""
 import binascii
-from common import import_droop, tok_i, tok_s, rng_for
+from common import import_droop, tok_i, tok_s, rng_for, REPO
+import os, sys
 
 droop = import_droop()
 from droop.options import Options
@@ -56,17 +57,28 @@ def reset_classes():
     """put the three value classes back into the state their class bodies define"""
     global _PRISTINE
     if _PRISTINE is None:
-        # first use in this process: nothing has called initialize() yet unless another driver did;
-        # the class bodies are known, so rebuild the pristine table from them
+        # what the class bodies define, read from a fresh interpreter (nothing has called initialize() there)
+        import subprocess, json as _json
+        code = ("import sys, json\nsys.path.insert(0, %r)\n"
+                "from droop.values.fixed import Fixed\nfrom droop.values.guarded import Guarded\nfrom droop.values.rational import Rational\n"
+                "C = dict(Fixed=Fixed, Guarded=Guarded, Rational=Rational)\nout = {}\n"
+                "for key in json.load(sys.stdin):\n"
+                "    cn, attr = key.split('|')\n"
+                "    d = C[cn].__dict__\n"
+                "    out[key] = ['v', d[attr]] if attr in d and isinstance(d[attr], (type(None), bool, int, str)) else (['absent'] if attr not in d else ['other', repr(d[attr])])\n"
+                "json.dump(out, sys.stdout)\n") % REPO
+        keys = ['%s|%s' % (cls.__name__, attr) for (_, cls, attr) in FIELDS]
+        r = subprocess.run([sys.executable, '-c', code], input=_json.dumps(keys).encode(), stdout=subprocess.PIPE, stderr=subprocess.PIPE,
+                           env=dict(os.environ, PYTHONHASHSEED='0'), timeout=120)
+        if r.returncode != 0:
+            raise RuntimeError('cannot read the pristine class state: ' + r.stderr.decode()[-400:])
+        got = _json.loads(r.stdout.decode())
         _PRISTINE = {}
         for (name, cls, attr) in FIELDS:
-            if name in ('Fixed.__scaledd', 'Guarded.__scaledg', 'Guarded.__geps', 'Guarded.maxDiff', 'Guarded.minDiff',
-                        'Guarded.epsilon'):
-                _PRISTINE[(cls, attr)] = _ABSENT
-            elif name in ('Guarded.quasi_exact', 'Guarded.exact'):
-                _PRISTINE[(cls, attr)] = True
-            else:
-                _PRISTINE[(cls, attr)] = None
+            g = got['%s|%s' % (cls.__name__, attr)]
+            if g[0] == 'other':
+                raise RuntimeError('class attribute %s has an unexpected initial value %s' % (name, g[1]))
+            _PRISTINE[(cls, attr)] = _ABSENT if g[0] == 'absent' else g[1]
     for (cls, attr), v in _PRISTINE.items():
         if v is _ABSENT:
             if attr in cls.__dict__:
